@@ -8,5 +8,6 @@ NEXT Next
 VIEW view
 INVARIANT CountersExclusive
 INVARIANT FailRunPublished
+PROPERTY FlipsOnlyAtThresholds
 CONSTRAINT Bound
 CHECK_DEADLOCK FALSE
